@@ -49,7 +49,8 @@ enum {
     C_ITEMS = 8, C_ADMIT_CALLS, C_ADMITTED, C_ADMITTED_TYPED, C_RUNS, C_OUT_CHECKED, C_BYTES_IN, C_BYTES_OUT, C_EMPTY_OUT, C_PARSEONLY_RUNS,
     C_FIX_ORDER_ONLY, C_OWN_ORDER_ONLY, C_OWN_NOT_ADMITTED, C_MUT_NOT_WF, C_MUT_NOT_APPLICABLE, C_PASS, C_FAIL, C_NSDECL_ONLY, C_XCHECK,
     C_DEFAULT_NOT_ADMITTED, C_PROBE_ITEMS,
-    C_KIND0 = 40,      // + mutation kind (M_KINDS <= 40); C_KIND0-1 = unmutated
+    C_KIND0 = 40,      // + mutation kind (M_KINDS <= 28); C_KIND0-1 = unmutated
+    C_KINDCPU0 = 70,   // + mutation kind: CPU milliseconds spent on items of that kind
     C_PARSER0 = 100,   // + parser index: admitted pairs per parser
     C_NOTADM0 = 300,   // + parser index: own output not admitted by the parser's own type check
 };
@@ -66,7 +67,7 @@ struct Work { int type; int doc; int mut; int kind; int parser; int shape; int s
 struct Cfg {
     std::string tier = "quick";
     uint64_t seed = 1;
-    int workers = 8;
+    int workers = 12;
     int depth = 0;
     int perDoc = -1;
     bool mutations = true, probes = true;
@@ -113,6 +114,8 @@ static const std::vector<Tpl> &templates()
     };
     return t;
 }
+
+static bool isHeavyKind(int k) { return k == M_ATTR_LONG || k == M_TEXT_LONG || k == M_WIDE || k == M_DEEP; }
 
 static std::vector<vt::Codec> g_table;
 static std::vector<Doc> g_docs;          // regress + corpus + sub-elements
@@ -348,16 +351,25 @@ static void runItem(const Work &w, int itemIdx, int resumeParser, Status *st, in
         Node n = g_nodes[w.doc];
         bool quick = g_cfg.tier == "quick";
         bool bigLong = !quick || rng.below(4) == 0;
-        MutCtx ctx { rng, &g_nodes, quick ? 48 : 160, quick ? 2000 : 20000, bigLong ? (1 << 20) : (1 << 16) };
+        MutCtx ctx { rng, &g_nodes, quick ? 48 : 160, quick ? 1000 : 20000, bigLong ? (1 << 20) : (1 << 16) };
         int kind = w.kind;
         std::string mutDesc;
+        int applied = -1;
         for (int tries = 0; tries < M_KINDS && mutDesc.empty(); tries++, kind = (kind + 1) % M_KINDS) {
+            if (tries > 0 && isHeavyKind(kind)) continue;   // a cheap kind never falls back to one that blows the document up
             mutDesc = mutate(n, kind, ctx);
             if (mutDesc.empty()) st->counters[C_MUT_NOT_APPLICABLE]++;
-            else st->counters[C_KIND0 + kind]++;
+            else { st->counters[C_KIND0 + kind]++; applied = kind; }
         }
         if (mutDesc.empty()) return;
-        explore(render(n), g_docs[w.doc].id, mutDesc, -1, resumeParser, st, samplesLeft, "", true);
+        kind = applied;
+        QByteArray in = render(n);
+        // the exact mutant, so that the parent can name it when this child dies
+        printf("D %s\t%s\t%s\n", g_docs[w.doc].id.c_str(), mutDesc.c_str(), escLine(in, 4000).c_str());
+        fflush(stdout);
+        long long c0 = cpuMicros();
+        explore(in, g_docs[w.doc].id, mutDesc, -1, resumeParser, st, samplesLeft, "", true);
+        st->counters[C_KINDCPU0 + kind] += (cpuMicros() - c0) / 1000;
         break;
     }
     case W_DEFAULT: {
@@ -411,7 +423,7 @@ int main(int argc, char **argv)
     if (g_cfg.workers < 1) g_cfg.workers = 1;
     if (g_cfg.workers > 32) g_cfg.workers = 32;
     bool quick = g_cfg.tier == "quick";
-    if (g_cfg.depth <= 0) g_cfg.depth = quick ? 2000 : 10000;
+    if (g_cfg.depth <= 0) g_cfg.depth = quick ? 1000 : 10000;
     if (g_cfg.perDoc < 0) g_cfg.perDoc = quick ? 6 : 60;
 
     {   // registers the QXmppExportData extension parsers (roster, vcard) as a real client does
@@ -522,6 +534,8 @@ int main(int argc, char **argv)
                     }
                 }
             }
+            QByteArray lastD;
+            if (r.crashed) for (const QByteArray &line : out.split('\n')) if (line.startsWith("D ")) lastD = line.mid(2);
             if (r.crashed) {
                 crashes++;
                 size_t k = size_t(r.batch) * batchSize + size_t(std::max(0, r.item));
@@ -547,10 +561,10 @@ int main(int argc, char **argv)
                 if (ep == std::string::npos) ep = tail.find("runtime error: ");
                 std::string first = ep == std::string::npos ? "" : tail.substr(ep, tail.find('\n', ep) - ep);
                 if (++failCount[key] <= 3) {
-                    printf("O FAIL %s\tparser=%s doc=%s stage=%s work=%zu seed=%llu kind=%s phase=%s exit=%d signal=%d cpu-budget=%ds %s | %s | base-document=%s | child-output=%s\n",
+                    printf("O FAIL %s\tparser=%s doc=%s stage=%s work=%zu seed=%llu kind=%s phase=%s exit=%d signal=%d cpu-budget=%ds %s | %s | base-document=%s | exact-input(id,mutation,xml)=%s | child-output=%s\n",
                            key.c_str(), parser.c_str(), docId.c_str(), stageName, k, (unsigned long long)g_cfg.seed, kind.c_str(), phaseName(r.phase), r.exitCode, r.signal,
                            g_cfg.cpuBudget, escLine(QByteArray::fromStdString(first), 300).c_str(), escLine(QByteArray::fromStdString(summary), 300).c_str(),
-                           xml.c_str(), r.outPath.c_str());
+                           xml.c_str(), lastD.constData(), r.outPath.c_str());
                 } else suppressed++;
             }
             fflush(stdout);
@@ -575,9 +589,9 @@ int main(int argc, char **argv)
         runStage("s0", work, 24);
     }
     // ---- stage 1: scaling probes
-    std::vector<int> depthSizes = quick ? std::vector<int> { 100, 200, 400 } : std::vector<int> { 100, 200, 400, 800 };
-    std::vector<int> childSizes = quick ? std::vector<int> { 500, 1000, 2000 } : std::vector<int> { 1000, 2000, 4000, 8000, 16000 };
-    std::vector<int> lenSizes = quick ? std::vector<int> { 1 << 16, 1 << 18, 1 << 20 } : std::vector<int> { 1 << 16, 1 << 18, 1 << 20, 1 << 22 };
+    std::vector<int> depthSizes = quick ? std::vector<int> { 100, 400 } : std::vector<int> { 100, 200, 400, 800 };
+    std::vector<int> childSizes = quick ? std::vector<int> { 250, 1000 } : std::vector<int> { 1000, 2000, 4000, 8000, 16000 };
+    std::vector<int> lenSizes = quick ? std::vector<int> { 1 << 16, 1 << 18 } : std::vector<int> { 1 << 16, 1 << 18, 1 << 20, 1 << 22 };
     if (g_cfg.probes) {
         std::vector<Work> work;
         for (size_t t = 0; t < templates().size(); t++)
@@ -640,7 +654,7 @@ int main(int argc, char **argv)
             }
         vh::stat("bigdepth_pairs_skipped_superlinear", skippedSlow);
         vh::stat("bigdepth_items", long(work.size()));
-        runStage("s2", work, 1);
+        runStage("s2", work, quick ? 8 : 2);
         // thorough only: the generic-element passthrough is super-linear in depth, so reaching a depth where its recursion exhausts
         // the stack takes minutes of CPU in the sanitizer build; one targeted run with a large budget (release build: SIGSEGV at the
         // same depth with the default 8 MB stack)
@@ -654,14 +668,21 @@ int main(int argc, char **argv)
             g_cfg.cpuBudget = saved;
         }
     }
-    // ---- stage 3: mutations (kinds dealt round-robin so every kind gets an equal share)
+    // ---- stage 3: mutations. The 24 cheap kinds are dealt round-robin so every kind gets an equal share; the 4 kinds that produce
+    // big documents (attr-long, text-long, wide, deep-nest) get a fixed quota of documents chosen with the seeded RNG.
     if (g_cfg.mutations) {
         std::vector<Work> work;
-        int g = int(g_cfg.seed % M_KINDS);
+        std::vector<int> cheap, heavy;
+        for (int k = 0; k < M_KINDS; k++) (isHeavyKind(k) ? heavy : cheap).push_back(k);
+        size_t g = size_t(g_cfg.seed % cheap.size());
         int perSub = std::max(1, g_cfg.perDoc / 6);   // top-level documents get perDoc mutants each, extracted sub-elements perDoc/6
         for (int m = 0; m < g_cfg.perDoc; m++)
             for (size_t i = g_nRegress; i < g_docs.size(); i++)
-                if (i < g_nTop || m < perSub) work.push_back({ W_MUT, int(i), m, (g++) % M_KINDS, -1, 0, 0 });
+                if (i < g_nTop || m < perSub) work.push_back({ W_MUT, int(i), m, cheap[(g++) % cheap.size()], -1, 0, 0 });
+        vh::Rng hr(g_cfg.seed * 77773ull + 5);
+        int quota = quick ? 12 : 150;
+        for (int k : heavy)
+            for (int q = 0; q < quota; q++) work.push_back({ W_MUT, int(g_nRegress + hr.below(uint32_t(g_docs.size() - g_nRegress))), 1000 + q, k, -1, 0, 0 });
         runStage("s3", work, 24);
     }
 
@@ -709,7 +730,7 @@ int main(int argc, char **argv)
     vh::stat("workers", g_cfg.workers);
     vh::stat("wall_ms", wall.elapsed());
     vh::stat("kind:unmutated", T[C_KIND0 - 1]);
-    for (int k = 0; k < M_KINDS; k++) vh::stat(std::string("kind:") + mutName(k), T[C_KIND0 + k]);
+    for (int k = 0; k < M_KINDS; k++) { vh::stat(std::string("kind:") + mutName(k), T[C_KIND0 + k]); vh::stat(std::string("kind_cpu_ms:") + mutName(k), T[C_KINDCPU0 + k]); }
     long never = 0;
     std::string neverNames;
     for (size_t p = 0; p < g_table.size(); p++) {
